@@ -30,18 +30,25 @@ macro_rules! backend_harnesses {
                 } else {
                     check_first(h, ri, p);
                 }
-                // the top-level function is wired to this backend
-                let top = match (which, rev) {
-                    (1, false) => memchr::memchr(n1, h),
-                    (1, true) => memchr::memrchr(n1, h),
-                    (2, false) => memchr::memchr2(n1, n2, h),
-                    (2, true) => memchr::memrchr2(n1, n2, h),
-                    (3, false) => memchr::memchr3(n1, n2, n3, h),
-                    _ => memchr::memrchr3(n1, n2, n3, h),
-                };
-                assert!(top == ri, "oracle: top-level function disagrees with the backend searcher");
                 kani::cover!(ri.is_none() && len == max, "no match at max length");
                 kani::cover!(matches!(ri, Some(i) if i + 1 == len) && len == max && off == 15, "match in last byte, max misalignment");
+            }
+
+            /// The top-level functions are wired to this backend (concrete
+            /// length, contents symbolic).
+            pub fn top_wiring<const LEN: usize>() {
+                let b = Buf::<LEN>::any();
+                let h = place(&b.0[..]);
+                let (n1, n2, n3): (u8, u8, u8) = (kani::any(), kani::any(), kani::any());
+                check_first(h, memchr::memchr(n1, h), |b| b == n1);
+                check_last(h, memchr::memrchr(n1, h), |b| b == n1);
+                check_first(h, memchr::memchr2(n1, n2, h), |b| b == n1 || b == n2);
+                check_last(h, memchr::memrchr2(n1, n2, h), |b| b == n1 || b == n2);
+                check_first(h, memchr::memchr3(n1, n2, n3, h), |b| b == n1 || b == n2 || b == n3);
+                check_last(h, memchr::memrchr3(n1, n2, n3, h), |b| b == n1 || b == n2 || b == n3);
+                let c = memchr::memchr_iter(n1, h).count();
+                assert!(c == crate::oracle::count(h, |b| b == n1), "oracle: count differs from the number of matching bytes");
+                kani::cover!(c > 1, "several matches");
             }
 
             pub fn count<const CAP: usize>(min: usize, max: usize) {
@@ -50,7 +57,6 @@ macro_rules! backend_harnesses {
                 let n1: u8 = kani::any();
                 let r = bm::One::new(n1).unwrap().count(h);
                 assert!(r == crate::oracle::count(h, |b| b == n1), "oracle: count differs from the number of matching bytes");
-                assert!(memchr::memchr_iter(n1, h).count() == r, "oracle: top-level count disagrees with the backend searcher");
                 kani::cover!(r == len && len == max, "every byte matches at max length");
             }
 
@@ -102,31 +108,31 @@ backend_harnesses!(simd128, vcfg_simd128, memchr::arch::wasm32::simd128::memchr,
 
 #[cfg(vcfg_neon)]
 inst!(neon_one_find, [props=C01+C09 xprops=C05+C14 tier=quick cfg=neon t=1800 role=neon-find uw=verif_emul:17;find_raw.0:2;find_raw.1:4;byte_by_byte:17], 3,
-    neon::find::<39>(1, false, 0, 24));
+    neon::find::<35>(1, false, 0, 20));
 #[cfg(vcfg_neon)]
 inst!(neon_one_find_40, [props=C01+C09 xprops=C05+C14 tier=thorough cfg=neon t=5400 role=neon-find uw=verif_emul:17;find_raw.0:2;find_raw.1:4;byte_by_byte:17], 3,
     neon::find::<55>(1, false, 0, 40));
 #[cfg(vcfg_neon)]
 inst!(neon_one_rfind, [props=C02+C09 xprops=C05+C14 tier=quick cfg=neon t=1800 role=neon-rfind uw=verif_emul:17;rfind_raw.0:2;rfind_raw.1:4;byte_by_byte:17], 3,
-    neon::find::<39>(1, true, 0, 24));
+    neon::find::<35>(1, true, 0, 20));
 #[cfg(vcfg_neon)]
 inst!(neon_one_rfind_40, [props=C02+C09 xprops=C05+C14 tier=thorough cfg=neon t=5400 role=neon-rfind uw=verif_emul:17;rfind_raw.0:2;rfind_raw.1:4;byte_by_byte:17], 3,
     neon::find::<55>(1, true, 0, 40));
 #[cfg(vcfg_neon)]
 inst!(neon_two_find, [props=C01+C09 xprops=C05+C14 tier=thorough cfg=neon t=1800 role=neon-find uw=verif_emul:17;find_raw.0:2;find_raw.1:4;byte_by_byte:17], 3,
-    neon::find::<39>(2, false, 0, 24));
+    neon::find::<35>(2, false, 0, 20));
 #[cfg(vcfg_neon)]
 inst!(neon_two_rfind, [props=C02+C09 xprops=C05+C14 tier=thorough cfg=neon t=1800 role=neon-rfind uw=verif_emul:17;rfind_raw.0:2;rfind_raw.1:4;byte_by_byte:17], 3,
-    neon::find::<39>(2, true, 0, 24));
+    neon::find::<35>(2, true, 0, 20));
 #[cfg(vcfg_neon)]
 inst!(neon_three_find, [props=C01+C09 xprops=C05+C14 tier=quick cfg=neon t=1800 role=neon-find uw=verif_emul:17;find_raw.0:2;find_raw.1:4;byte_by_byte:17], 3,
-    neon::find::<39>(3, false, 0, 24));
+    neon::find::<35>(3, false, 0, 20));
 #[cfg(vcfg_neon)]
 inst!(neon_three_find_40, [props=C01+C09 xprops=C05+C14 tier=thorough cfg=neon t=5400 role=neon-find uw=verif_emul:17;find_raw.0:2;find_raw.1:4;byte_by_byte:17], 3,
     neon::find::<55>(3, false, 0, 40));
 #[cfg(vcfg_neon)]
 inst!(neon_three_rfind, [props=C02+C09 xprops=C05+C14 tier=quick cfg=neon t=1800 role=neon-rfind uw=verif_emul:17;rfind_raw.0:2;rfind_raw.1:4;byte_by_byte:17], 3,
-    neon::find::<39>(3, true, 0, 24));
+    neon::find::<35>(3, true, 0, 20));
 #[cfg(vcfg_neon)]
 inst!(neon_three_rfind_40, [props=C02+C09 xprops=C05+C14 tier=thorough cfg=neon t=5400 role=neon-rfind uw=verif_emul:17;rfind_raw.0:2;rfind_raw.1:4;byte_by_byte:17], 3,
     neon::find::<55>(3, true, 0, 40));
@@ -144,31 +150,31 @@ inst!(neon_finder_n2, [props=C03+C09 xprops=C05+C14 tier=quick cfg=neon t=1800 r
     neon::finder::<2, 20>(0, 20));
 #[cfg(vcfg_simd128)]
 inst!(simd128_one_find, [props=C01+C09 xprops=C05+C14 tier=quick cfg=simd128 t=1800 role=simd128-find uw=verif_emul:17;find_raw.0:2;find_raw.1:4;byte_by_byte:17], 3,
-    simd128::find::<39>(1, false, 0, 24));
+    simd128::find::<35>(1, false, 0, 20));
 #[cfg(vcfg_simd128)]
 inst!(simd128_one_find_40, [props=C01+C09 xprops=C05+C14 tier=thorough cfg=simd128 t=5400 role=simd128-find uw=verif_emul:17;find_raw.0:2;find_raw.1:4;byte_by_byte:17], 3,
     simd128::find::<55>(1, false, 0, 40));
 #[cfg(vcfg_simd128)]
 inst!(simd128_one_rfind, [props=C02+C09 xprops=C05+C14 tier=quick cfg=simd128 t=1800 role=simd128-rfind uw=verif_emul:17;rfind_raw.0:2;rfind_raw.1:4;byte_by_byte:17], 3,
-    simd128::find::<39>(1, true, 0, 24));
+    simd128::find::<35>(1, true, 0, 20));
 #[cfg(vcfg_simd128)]
 inst!(simd128_one_rfind_40, [props=C02+C09 xprops=C05+C14 tier=thorough cfg=simd128 t=5400 role=simd128-rfind uw=verif_emul:17;rfind_raw.0:2;rfind_raw.1:4;byte_by_byte:17], 3,
     simd128::find::<55>(1, true, 0, 40));
 #[cfg(vcfg_simd128)]
 inst!(simd128_two_find, [props=C01+C09 xprops=C05+C14 tier=thorough cfg=simd128 t=1800 role=simd128-find uw=verif_emul:17;find_raw.0:2;find_raw.1:4;byte_by_byte:17], 3,
-    simd128::find::<39>(2, false, 0, 24));
+    simd128::find::<35>(2, false, 0, 20));
 #[cfg(vcfg_simd128)]
 inst!(simd128_two_rfind, [props=C02+C09 xprops=C05+C14 tier=thorough cfg=simd128 t=1800 role=simd128-rfind uw=verif_emul:17;rfind_raw.0:2;rfind_raw.1:4;byte_by_byte:17], 3,
-    simd128::find::<39>(2, true, 0, 24));
+    simd128::find::<35>(2, true, 0, 20));
 #[cfg(vcfg_simd128)]
 inst!(simd128_three_find, [props=C01+C09 xprops=C05+C14 tier=quick cfg=simd128 t=1800 role=simd128-find uw=verif_emul:17;find_raw.0:2;find_raw.1:4;byte_by_byte:17], 3,
-    simd128::find::<39>(3, false, 0, 24));
+    simd128::find::<35>(3, false, 0, 20));
 #[cfg(vcfg_simd128)]
 inst!(simd128_three_find_40, [props=C01+C09 xprops=C05+C14 tier=thorough cfg=simd128 t=5400 role=simd128-find uw=verif_emul:17;find_raw.0:2;find_raw.1:4;byte_by_byte:17], 3,
     simd128::find::<55>(3, false, 0, 40));
 #[cfg(vcfg_simd128)]
 inst!(simd128_three_rfind, [props=C02+C09 xprops=C05+C14 tier=quick cfg=simd128 t=1800 role=simd128-rfind uw=verif_emul:17;rfind_raw.0:2;rfind_raw.1:4;byte_by_byte:17], 3,
-    simd128::find::<39>(3, true, 0, 24));
+    simd128::find::<35>(3, true, 0, 20));
 #[cfg(vcfg_simd128)]
 inst!(simd128_three_rfind_40, [props=C02+C09 xprops=C05+C14 tier=thorough cfg=simd128 t=5400 role=simd128-rfind uw=verif_emul:17;rfind_raw.0:2;rfind_raw.1:4;byte_by_byte:17], 3,
     simd128::find::<55>(3, true, 0, 40));
@@ -184,3 +190,9 @@ inst!(simd128_packed_pre_n3, [props=C11+C09 xprops=C05+C14 tier=quick cfg=simd12
 #[cfg(vcfg_simd128)]
 inst!(simd128_finder_n2, [props=C03+C09 xprops=C05+C14 tier=quick cfg=simd128 t=1800 role=simd128-finder uw=verif_emul:17;find_in_chunk:18;is_equal_raw:3;packedpair::Finder:3;rabinkarp::Finder::find_raw:22;Hash:5;rabinkarp::Finder::new:5;with_ranker:5;oracle:4], 4,
     simd128::finder::<2, 20>(0, 20));
+#[cfg(vcfg_neon)]
+inst!(neon_top_wiring_20, [props=C01+C02+C07+C09 xprops=C05+C14 tier=quick cfg=neon t=1800 role=neon-top-level-wiring uw=verif_emul:17;find_raw.0:2;find_raw.1:3;count_raw.0:2;count_raw.1:3;byte_by_byte:17;oracle::count:22], 3,
+    neon::top_wiring::<20>());
+#[cfg(vcfg_simd128)]
+inst!(simd128_top_wiring_20, [props=C01+C02+C07+C09 xprops=C05+C14 tier=quick cfg=simd128 t=1800 role=simd128-top-level-wiring uw=verif_emul:17;find_raw.0:2;find_raw.1:3;count_raw.0:2;count_raw.1:3;byte_by_byte:17;oracle::count:22], 3,
+    simd128::top_wiring::<20>());
